@@ -77,6 +77,23 @@ def case_key(case):
     return json.dumps([case["ports"], case["forms"], case["kernel"], case["mode"], case.get("real")], sort_keys=True, default=str)
 
 
+PENDING = []          # second-pass deviations waiting for the model's verdict on their case
+
+
+def flush_pending(ctx, disagree_ids, evaluated_ids, prefix="second-pass:"):
+    """second-pass deviations: known finding iff the model reproduces the implementation on that case"""
+    keep = []
+    for cid, kind, text, case in PENDING:
+        if cid in disagree_ids:
+            ctx.violation("second-pass-not-explained-by-model:" + kind, text + " -- and the bit-exact model of the balancer does NOT "
+                          "reproduce this output, so it is not the known second-pass defect", {"case": case, "kind": kind})
+        elif cid in evaluated_ids:
+            ctx.violation(prefix + kind, text, {"case": case, "kind": kind})
+        else:
+            keep.append((cid, kind, text, case))
+    PENDING[:] = keep
+
+
 def judge(ctx, case, out, prop="C01"):
     """Independent oracle on the implementation's output."""
     mode = case["mode"]
@@ -88,9 +105,13 @@ def judge(ctx, case, out, prop="C01"):
     for kind, text in bad:
         if kind == "crash":
             continue
-        where = "real kernel %s on %s" % (case["real"][1], case["real"][0]) if case.get("real") else "synthetic kernel"
-        key = ("second-pass:" if mode == "twice" else mode + ":") + kind
-        ctx.violation(key, "%s, mode %s: %s" % (where, mode, text), {"case": case, "kind": kind})
+        where = "real kernel %s on %s" % (case["real"][1].replace("\n", " ; ")[:400], case["real"][0]) if case.get("real") else "synthetic kernel"
+        if mode == "twice":
+            # the known second-pass defect is exactly what the bit-exact model of the balancer exhibits; the verdict is given
+            # once the model has been evaluated on this case (run_cases): only a deviation the model REPRODUCES is that finding
+            PENDING.append((id(case), kind, "%s, mode %s: %s" % (where, mode, text), case))
+            continue
+        ctx.violation(mode + ":" + kind, "%s, mode %s: %s" % (where, mode, text), {"case": case, "kind": kind})
 
 
 def run_cases(ctx, cases_outs, label, shard_size=20):
@@ -101,16 +122,19 @@ def run_cases(ctx, cases_outs, label, shard_size=20):
     nbad = 0
     nexact0 = 0
     details = []
+    disagree_ids = set()
     for si, (ok, out) in enumerate(res):
         if not ok:
             nbad += 1
             details.append("shard %d failed to evaluate: %s" % (si, out[0][-1500:]))
+            disagree_ids |= set(id(c) for c, _ in cases_outs[si * shard_size:(si + 1) * shard_size])
             continue
         bad, n, ex0 = out[0].split("|")
         nexact0 += int(ex0)
         for b in [x for x in bad.split(",") if x]:
             nbad += 1
             c, o = cases_outs[si * shard_size + int(b)]
+            disagree_ids.add(id(c))
             details.append("case disagrees: %s -> impl %s" % (json.dumps(c, default=str)[:1500], str(o[:3])[:600]))
             # keep for the regression corpus of this run
             d = os.path.join(vlib.VERIF, "replays", ctx.prop)
@@ -119,6 +143,7 @@ def run_cases(ctx, cases_outs, label, shard_size=20):
                 json.dump({"property": ctx.prop, "key": "correspondence", "replay": {"case": c}}, f, default=str)
     ctx.obligation("correspondence %s: binary64 model = implementation bit for bit on %d cases" % (label, len(cases_outs)),
                    "correspondence", nbad == 0, "\n".join(details[:5]))
+    flush_pending(ctx, disagree_ids, set(id(c) for c, _ in cases_outs))
     ctx.coverage.setdefault("exact_zero_events", {})[label] = nexact0
     return nbad
 
@@ -182,6 +207,27 @@ def real(ctx, npairs):
             ctx.nontriv(case_key(case))
             judge(ctx, case, out)
     ctx.coverage["real_pairs"] = len(pairs)
+    # generated kernels through the real parse + add_semantics path: the same model entry hit by several lines
+    gen = 0
+    for i in range(ctx.n(30, 300)):
+        arch = ctx.rng.choice([a for a in models.nonempty_archs() if ctx.tier != "quick" or a in models.SMALL + ["zen2", "hsw", "n1"]])
+        isa = "x86" if arch in models.X86 else "aarch64"
+        path = os.path.join(ctx.scratch, "rep%d.s" % i)
+        with open(path, "w") as f:
+            f.write(pressure.repeated_entry_kernel(ctx.rng, isa))
+        for mode in ("once", "twice"):
+            try:
+                case, out = pressure.real_case(arch, path, mode)
+            except Exception as e:  # noqa
+                ctx.coverage.setdefault("real_skipped", []).append("%s generated: %r" % (arch, e))
+                continue
+            case["real"] = [arch, "generated:" + open(path).read()]
+            cases_outs.append((case, out))
+            ctx.count()
+            ctx.nontriv(case_key(case))
+            judge(ctx, case, out)
+            gen += 1
+    ctx.coverage["generated_real_path_cases"] = gen
     return cases_outs
 
 
@@ -250,12 +296,21 @@ def replay(ctx, obj):
         return c01_gen.replay(ctx, obj)
     case = r["case"]
     case["forms"] = [dict(f, uops={int(k): v for k, v in f["uops"].items()} if isinstance(f["uops"], dict) else f["uops"]) for f in case["forms"]]
-    if case.get("real"):
+    if case.get("real") and case["real"][1].startswith("generated:"):
+        path = os.path.join(ctx.scratch, "replay.s")
+        with open(path, "w") as f:
+            f.write(case["real"][1][len("generated:"):])
+        real = case["real"]
+        case, out = pressure.real_case(real[0], path, case["mode"])
+        case["real"] = real
+    elif case.get("real"):
         case, out = pressure.real_case(case["real"][0], os.path.join(vlib.REPO, case["real"][1]), case["mode"])
     else:
         out = pressure.run_impl(case)
     ctx.count()
     ctx.log("replay: implementation returned %s" % str(out[:3])[:800])
     judge(ctx, case, out)
+    if PENDING:
+        run_cases(ctx, [(case, out)], "replay")
     if obj.get("key") == "correspondence":
         run_cases(ctx, [(case, out)], "replay")
